@@ -29,6 +29,7 @@ class CondFlow:
                 if not s.get("pruned"):
                     self.preds.setdefault(s["to"], []).append((b["id"], s["when"]))
         self.deps = {}
+        self.flaginit = {}
         self.IN = {}
         self._solve()
 
@@ -51,6 +52,15 @@ class CondFlow:
                 for v in s["vars"]:
                     dead.add("L#%s:%s" % (v["id"], v["name"]))
             facts = self._kill(facts, dead)
+            # a bool local initialised with a condition: remembered as long as nothing the condition reads changes, so that a
+            # later branch on the flag (in any block) establishes the condition's conjuncts
+            if s["k"] == "decl":
+                for v in s["vars"]:
+                    if v.get("init") is not None and (v.get("ty") or "").replace("const ", "") == "bool":
+                        fl = ("flag", (str(v["id"]),), 0)
+                        self.flaginit[v["id"]] = v["init"]
+                        self.deps[fl] = _paths(v["init"]) | {"L#%s:%s" % (v["id"], v["name"])}
+                        facts = frozenset(set(facts) | {fl})
             # const locals initialised with an expression: x == expr
             if s["k"] == "decl":
                 for v in s["vars"]:
@@ -83,7 +93,37 @@ class CondFlow:
                 for n2, dep in self._flag_facts(blk, c, when == "true"):
                     self.deps[n2] = dep
                     facts = frozenset(set(facts) | {n2})
+                for n2, dep in self._bound_flag_facts(facts, c, when == "true"):
+                    self.deps[n2] = dep
+                    facts = frozenset(set(facts) | {n2})
         return facts
+
+    def _bound_flag_facts(self, facts, c, truth):
+        """branch on a bool local whose defining condition is still valid here (its ("flag", id) fact survived)"""
+        e = X.strip(c)
+        while isinstance(e, dict) and e.get("k") == "un" and e.get("op") == "!":
+            truth = not truth
+            e = X.strip(e["e"])
+        if not (isinstance(e, dict) and e.get("k") == "ref" and e.get("kind") == "local"):
+            return []
+        if ("flag", (str(e.get("id")),), 0) not in facts or e.get("id") not in self.flaginit:
+            return []
+        parts = []
+
+        def split(x, op):
+            x0 = X.strip(x)
+            if isinstance(x0, dict) and x0.get("k") == "bin" and x0.get("op") == op:
+                split(x0["l"], op)
+                split(x0["r"], op)
+            else:
+                parts.append(x0)
+        split(self.flaginit[e["id"]], "&&" if truth else "||")
+        out = []
+        for part in parts:
+            n2 = cmp_norm(part, truth)
+            if n2:
+                out.append((n2, _paths(part)))
+        return out
 
     def _flag_facts(self, blk, c, truth):
         e = X.strip(c)
